@@ -681,6 +681,11 @@ def main(tier, seed, replay=None):
             for i in range(nchunk):
                 for j in range(0, len(ms), 56):
                     sw.append((top * i // nchunk, top * (i + 1) // nchunk, ms[j:j + 56]))
+            # a changed function may keep fractional bits for much larger keys (e.g. a double product):
+            # every 32-bit key with two table sizes, then a sparse scan of the 64-bit range
+            lo, hi, nchunk = 1 << 23, 1 << 32, 512
+            for i in range(nchunk):
+                sw.append((lo + (hi - lo) * i // nchunk, lo + (hi - lo) * (i + 1) // nchunk, [16, 7]))
             _, _, _, sweep2, _ = impl_run(built['hashfn_o2'], work, 'ic', [], [], sw)
             sweep['calls'] += sweep2['calls']
             if sweep2['viol']:
